@@ -482,6 +482,17 @@ fn process_withdrawals<C: ContentAddrStore>(mut state: UnsealedState<C>) -> Unse
 
 /// Process pegging.
 fn process_pegging<C: ContentAddrStore>(mut state: UnsealedState<C>) -> UnsealedState<C> {
+    // ERG/SYM can have been created by users before TIP-902 made it a built-in; it then holds no unowned liquidity and can be
+    // withdrawn down to nothing, and without reserves there is no exchange rate to peg to
+    if state.tip_902() {
+        let es_pool = state
+            .pools
+            .get(&PoolKey::new(Denom::Sym, Denom::Erg))
+            .unwrap();
+        if es_pool.lefts == 0 || es_pool.rights == 0 {
+            return state;
+        }
+    }
     // first calculate the implied sym/Erg exchange rate
     let x_sd = if state.tip_902() {
         state
